@@ -12,7 +12,7 @@ from .core import History, Sub, Outcome, target, canon
 
 PID = 'C16'
 SHARDS = {'quick': 8, 'thorough': 16}
-RULE = ('(missing) for fixed fully specified systems of rank 1-3 every subset of size 1-2 of the individual items {density[t], '
+RULE = ('(missing) for fixed fully specified systems of rank 1-3 (type names not in alphabetical order) every subset of size 1-2 of the individual items {density[t], '
         'diameter[t], potential[p], closure[p], omega[p], domain} is left unassigned -- enumerated exhaustively -- and createPRISM() and '
         'solve() must raise ValueError without any potential / closure / omega calculate() having run (instance wrappers count calls). '
         '(history) a Hypothesis RuleBasedStateMachine edits one System (density, diameter, kT, replace potential / closure / omega of a '
@@ -38,11 +38,11 @@ FIXED = [
     {'types': ['A'], 'kT': 1.2, 'domain': {'length': 64, 'dr': 0.25}, 'dia': [1.0], 'rho': [0.2],
      'omega': {'0,0': ['Gaussian', {'length': 5, 'sigma': 1.0}]}, 'potential': {'0,0': ['LennardJones', {'epsilon': 0.3, 'rcut': 2.5, 'shift': True}]},
      'closure': {'0,0': ['MSA', True]}},
-    {'types': ['A', 'B'], 'kT': 1.0, 'domain': {'length': 64, 'dr': 0.25}, 'dia': [1.0, 1.5], 'rho': [0.2, 0.05],
+    {'types': ['poly', 'np'], 'kT': 1.0, 'domain': {'length': 64, 'dr': 0.25}, 'dia': [1.0, 1.5], 'rho': [0.2, 0.05],
      'omega': {'0,0': ['FreelyJointedChain', {'length': 4, 'l': 1.0}], '0,1': ['NoIntra', {}], '1,1': ['SingleSite', {}]},
      'potential': {'0,0': ['HardSphere', {}], '0,1': ['Exponential', {'epsilon': 0.2, 'alpha': 0.5}], '1,1': ['HardSphere', {}]},
      'closure': {'0,0': ['PY', False], '0,1': ['HNC', True], '1,1': ['PY', True]}},
-    {'types': ['A', 'B', 'C'], 'kT': 1.0, 'domain': {'length': 64, 'dr': 0.25}, 'dia': [1.0, 1.0, 2.0], 'rho': [0.1, 0.1, 0.01],
+    {'types': ['solvent', 'polymer', 'filler'], 'kT': 1.0, 'domain': {'length': 64, 'dr': 0.25}, 'dia': [1.0, 1.0, 2.0], 'rho': [0.1, 0.1, 0.01],
      'omega': {'0,0': ['SingleSite', {}], '0,1': ['NoIntra', {}], '0,2': ['InterMolecular', {}], '1,1': ['GaussianRing', {'length': 4, 'sigma': 1.0}],
                '1,2': ['NoIntra', {}], '2,2': ['SingleSite', {}]},
      'potential': {'0,0': ['HardSphere', {}], '0,1': ['HardSphere', {}], '0,2': ['HardCoreLennardJones', {'epsilon': 0.2}], '1,1': ['HardSphere', {}],
@@ -218,6 +218,9 @@ class Histories(History):
             spec['rho'] = [float('%.6g' % v) for v in S.density_of(spec)]
             spec.pop('eta')
             spec['dia'] = [d if d in ON_GRID else 1.0 for d in spec['dia']]
+            # type names are arbitrary labels: not always in alphabetical order
+            names = [['A', 'B', 'C'], ['solvent', 'polymer', 'filler'], ['Z', 'Y', 'X'], ['b', 'a', 'c']][int(round(spec['kT'] * 1000)) % 4]
+            spec['types'] = names[:len(spec['types'])]
             spec['domain'] = {'length': 256, 'dr': 0.125}
             for kk, d in spec['potential'].items():
                 if d[0] == 'LennardJones':
